@@ -12,10 +12,11 @@ Fixpoint find_idx {A} (f : A -> bool) (l : list A) : nat :=
 Fixpoint upd_nth {A} (n : nat) (f : A -> A) (l : list A) : list A :=
   match n, l with O, x :: t => f x :: t | S k, x :: t => x :: upd_nth k f t | _, [] => [] end.
 (* std::swap(v[i], v.back()); v.pop_back() *)
-Definition swap_remove {A} (n : nat) (l : list A) : list A :=
-  match rev l with
-  | [] => []
-  | lst :: _ => if Nat.eqb n (length l - 1) then removelast l else upd_nth n (fun _ => lst) (removelast l)
+Fixpoint swap_remove {A} (n : nat) (l : list A) : list A :=
+  match n, l with
+  | O, x :: t => match rev t with [] => [] | lst :: _ => lst :: removelast t end
+  | S k, x :: t => x :: swap_remove k t
+  | _, [] => []
   end.
 
 Definition p_type (p : packet) : Z := match p_pl p with Some pl => pl_type pl | None => 0 end.
